@@ -237,7 +237,20 @@ class NoteVal:
         raise CannotDecide("index %r into the spelling of %r" % (idx, self))
 
     def a_eq(self, interp, other):
+        if other is self:
+            return True
         return None  # spelling unknown
+
+    def a_len(self, interp):
+        if not hasattr(self, "_len"):
+            self._len = Sym("len(%s,%s)" % (self.head, self.pitch), 1, 7)
+        return Lin.of(self._len)
+
+    def a_binop(self, interp, op, other, reflected, node):
+        import ast as _ast
+        if op is _ast.Add and isinstance(other, (str, AbsStr, Ch)):
+            return AbsStr([other, self] if reflected else [self, other])
+        return NotImplemented
 
     def __repr__(self):
         return "NoteVal(%s, %s)" % (self.head, self.pitch)
